@@ -270,16 +270,29 @@ func (c *Ctx) sessionTopicRecord() {
 				}
 			}
 		}
+		// the two appends (filter, QoS), in Topics itself or in a small helper it calls per entry
 		napp := 0
-		for _, b := range tops.Blocks {
-			for _, in := range b.Instrs {
-				if call, ok := in.(*ssa.Call); ok {
-					if bi, ok := call.Common().Value.(*ssa.Builtin); ok && bi.Name() == "append" {
-						napp++
+		var countAppends func(fn *ssa.Function, depth int)
+		countAppends = func(fn *ssa.Function, depth int) {
+			for _, b := range fn.Blocks {
+				for _, in := range b.Instrs {
+					call, ok := in.(*ssa.Call)
+					if !ok {
+						continue
+					}
+					if bi, ok := call.Common().Value.(*ssa.Builtin); ok {
+						if bi.Name() == "append" {
+							napp++
+						}
+						continue
+					}
+					if h := call.Common().StaticCallee(); h != nil && depth > 0 && h.Pkg == fn.Pkg && h.Blocks != nil && len(ir.Loops(h)) == 0 {
+						countAppends(h, depth-1)
 					}
 				}
 			}
 		}
+		countAppends(tops, 1)
 		c.R.Check(rng != nil && napp == 2, ruleT5, "Session.Topics:lists-every-recorded-filter", c.P.Pos(tops.Pos()), "ranges over the record and returns every filter with its QoS", "Topics() does not list every recorded (filter, QoS) pair: teardown leaves subscriptions in the tree / a resume does not restore them")
 		// the two lists are parallel (index i of one belongs to index i of the other: start() pairs them by
 		// index): after they were filled neither may be handed to anything that can reorder or change it alone
